@@ -114,6 +114,11 @@ impl HandlerManager {
 
     let initial_ops = handler_box.connection_ready(&interface_for_ready);
     self.handlers.insert(fd, handler_box);
+    #[cfg(rzmq_verif)]
+    {
+      crate::verif::uring::fd_event(crate::verif::uring::FdEvent::HandlerAdded(fd));
+      crate::verif::uring::handlers(self.handlers.len());
+    }
     Ok(initial_ops)
   }
 
@@ -146,6 +151,11 @@ impl HandlerManager {
     );
     let initial_ops = handler.connection_ready(&interface);
     self.handlers.insert(fd, handler);
+    #[cfg(rzmq_verif)]
+    {
+      crate::verif::uring::fd_event(crate::verif::uring::FdEvent::HandlerAdded(fd));
+      crate::verif::uring::handlers(self.handlers.len());
+    }
     info!(
       "HandlerManager: Directly added handler for FD {} via add_handler_directly.",
       fd
@@ -165,6 +175,13 @@ impl HandlerManager {
     // If this FD was a listener, also remove its metadata.
     // It's okay if it wasn't a listener; remove will do nothing.
     self.listener_metadata.remove(&fd);
+    #[cfg(rzmq_verif)]
+    {
+      if self.handlers.contains_key(&fd) {
+        crate::verif::uring::fd_event(crate::verif::uring::FdEvent::HandlerRemoved(fd));
+      }
+      crate::verif::uring::handlers(self.handlers.len().saturating_sub(self.handlers.contains_key(&fd) as usize));
+    }
     self.handlers.remove(&fd)
   }
 
